@@ -251,7 +251,7 @@ func (P *Program) isRecursiveSpec(name string) bool {
 
 // callSpec emits an application of a spec function in the given state.
 // Non-recursive spec functions are expanded in place.
-func (vc *VC) callSpec(sf *SpecFunc, args []Val, st *State) Val {
+func (vc *VC) callSpec(sf *SpecFunc, args []Val, st, old *State) Val {
 	if !sf.Opaque && !sf.NoInline && !vc.prog.isRecursiveSpec(sf.Name) {
 		var pkg *types.Package
 		for _, p := range vc.prog.allPkgs {
@@ -273,7 +273,7 @@ func (vc *VC) callSpec(sf *SpecFunc, args []Val, st *State) Val {
 			}
 			env.names[p.Name] = envEntry{val: &v}
 		}
-		r := vc.evalVal(sf.Body, env, st, st)
+		r := vc.evalVal(sf.Body, env, st, old)
 		rt := vc.prog.resolveType(sf.Ret, pkg)
 		r.T = rt
 		return r
